@@ -106,6 +106,8 @@ def cases_for(name, tier):
         for j, pi in enumerate(pis):
             if big and tier == "quick" and i > 0 and j != i % len(pis):
                 continue
+            if big and len(terms) > 6 and i > 8 * len(terms) + 6 and j != 1:
+                continue  # the 2^12 corners of GNC: one (unequal) motif-prob choice
             out.append({"params": pv, "pi": pi, "config": "default"})
     base = D.base_params(terms)
     pi1 = pis[min(1, len(pis) - 1)]
